@@ -367,6 +367,48 @@ fn cmd_reset_check() -> i32 {
     }
 }
 
+/// Snapshot for the Huffman-block harness family: feed `bytes` (a stream prefix ending inside or
+/// right after a block header) to the REAL decoder one byte at a time, "more input" announced,
+/// until it waits in state DecodeLitlen with the decode tables built by the real init_tree;
+/// print registers, both tables, bytes consumed and bytes already written as JSON.
+fn cmd_snap(args: &[String]) -> i32 {
+    use miniz_oxide::inflate::core::{decompress_with_limit, DecompressorOxide};
+    let flags: u32 = args[0].parse().unwrap();
+    let out_len: usize = args[1].parse().unwrap();
+    let pos0: usize = args[2].parse().unwrap();
+    let hex = args[3].as_bytes();
+    let bytes: Vec<u8> = (0..hex.len() / 2).map(|i| u8::from_str_radix(std::str::from_utf8(&hex[2 * i..2 * i + 2]).unwrap(), 16).unwrap()).collect();
+    let mut d = DecompressorOxide::new();
+    let mut out = vec![0u8; out_len];
+    let mut pos = pos0;
+    let mut consumed = 0usize;
+    let mut reached = false;
+    while consumed < bytes.len() {
+        let (st, c, w) = decompress_with_limit(&mut d, &bytes[consumed..consumed + 1], &mut out, pos, usize::MAX, flags | 2);
+        consumed += c;
+        pos += w;
+        if st as i32 != 1 || c != 1 {
+            println!("{{\"error\": \"status {:?} after {} bytes\"}}", st, consumed);
+            return 1;
+        }
+        if d.verif_state_id() == 12 {
+            reached = true;
+            break;
+        }
+    }
+    if !reached {
+        println!("{{\"error\": \"DecodeLitlen not reached\"}}");
+        return 1;
+    }
+    let r = d.verif_regs();
+    let (l0, t0) = d.verif_table_snapshot(0);
+    let (l1, t1) = d.verif_table_snapshot(1);
+    println!("{{\"consumed\": {}, \"written\": {:?}, \"state\": {}, \"num_bits\": {}, \"bit_buf\": {}, \"z_header0\": {}, \"z_header1\": {}, \"z_adler32\": {}, \"finish\": {}, \"block_type\": {}, \"check_adler32\": {}, \"dist\": {}, \"counter\": {}, \"num_extra\": {}, \"table_sizes\": {:?}, \"raw_header\": {:?}, \"l_lookup\": {:?}, \"l_tree\": {:?}, \"d_lookup\": {:?}, \"d_tree\": {:?}}}",
+             consumed, &out[pos0..pos], r.state, r.num_bits, r.bit_buf, r.z_header0, r.z_header1, r.z_adler32, r.finish, r.block_type, r.check_adler32,
+             r.dist, r.counter, r.num_extra, r.table_sizes, r.raw_header, &l0[..], &t0[..], &l1[..], &t1[..]);
+    0
+}
+
 fn main() {
     let args: Vec<String> = std::env::args().skip(1).collect();
     if args.is_empty() {
@@ -378,6 +420,7 @@ fn main() {
         "refcheck" => cmd_refcheck(),
         "reset-check" => cmd_reset_check(),
         "dump-tables" => cmd_dump_tables(),
+        "snap" => cmd_snap(&args[1..]),
         "capi-init" => cmd_capi_init(&args[1..]),
         "capi-init-child" => cmd_capi_init_child(&args[1..]),
         _ => {
